@@ -22,11 +22,8 @@ ids = [a for i, a in enumerate(args) if not a.startswith("-") and (i == 0 or arg
 sub = "seeded" if mode == "seeds" else "refactors"
 ids = ids or sorted(os.path.basename(d) for d in glob.glob(os.path.join(V, sub, "C*")) if os.path.isdir(d))
 props = sorted(os.path.basename(p)[:-3] for p in glob.glob(os.path.join(V, "cnvlint", "props", "C*.py")))
-MX = "/tmp/mx"
+MX = f"/tmp/mx.{os.getpid()}"          # one scratch area per run: several runs may be in flight
 subprocess.run(["git", "-C", "/repo", "worktree", "prune"])
-for d in glob.glob(MX + "/t*"):
-    subprocess.run(["git", "-C", "/repo", "worktree", "remove", "--force", d], stderr=subprocess.DEVNULL)
-shutil.rmtree(MX, ignore_errors=True)
 os.makedirs(MX)
 shutil.copytree(os.path.join(V, "cnvlint"), os.path.join(MX, "code", "cnvlint"), ignore=shutil.ignore_patterns("__pycache__"))
 for f in ("properties.jsonl", "known_findings.json"):
